@@ -100,7 +100,7 @@ def profile_lines(name):
     return ['c 0 gate rule %d %s' % (i, r) for i, r in enumerate(PROFILES[name])]
 
 
-STRING_VARIANTS = ['start', 'startf3', 'startf4', 'startm2', 'startm3']   # what harness/future.cpp has for Future<String>
+STRING_VARIANTS = ['start', 'starts', 'startf3', 'startf4', 'startm2', 'startm3']   # what harness/future.cpp has for Future<String>
 START_VARIANTS = ['start', 'startf0', 'startf1', 'startf3', 'startf4', 'startf5', 'startm0', 'startm1', 'startm2', 'startm3', 'startm4']
 
 
@@ -180,6 +180,14 @@ def gen_nested(rng, ncl, ncalls):
         elif k == 1:
             ops.append('c %d join %d' % (c, f))
     return ops
+
+
+PIN_FILES = ['src/Future.cpp', 'include/nstd/Future.hpp']
+
+
+def pin_of(rel):
+    """sha256 of the token sequence of a source file of the tree under test (comments and white space removed)"""
+    return hashlib.sha256(' '.join(tables_future._read(rel)).encode('latin-1', 'replace')).hexdigest()
 
 
 OPEN_NESTED = 'corpus/C10/open/nested-start-full-queue.ops'
@@ -284,14 +292,21 @@ class C10(Check):
                   "function's return value, also for a conversion after an earlier join() (the value of the LATEST start); when the "
                   'DESTRUCTOR returns no worker holds the call record or stands inside the completion handshake any more (proved for '
                   'Signal::set as repaired by fixes/C10/04, refuted by a machine-checked witness for Signal::set as it was: unlock, then '
-                  'broadcast on a possibly destroyed condition variable - a genuine defect, repaired); after join the state is aborted '
+                  'broadcast on a possibly destroyed condition variable - a genuine defect, repaired); the RESULT SLOT (member `result` of '
+                  'Future<A>, destroyed by ~Future<A> after its join()) dies only after the latest started call has run, once, and has '
+                  'stored its return value (result_slot_outlives_execution, no hypothesis on Signal::set; the model has ONE join in the '
+                  'destructor - a ~Future<A> without its join() is outside the model and is seen by the harness only: Future<String> '
+                  'slots under ASan); after join the state is aborted '
                   'only if abort() was requested since the start and finished otherwise; no ring slot is handed to two consumers or '
                   'producers, a pop returns the job pushed under its ticket, queued jobs are not lost. LIVENESS ("every join eventually '
                   'returns"): PROVED IN PART. (A) DEADLOCK FREEDOM IS A THEOREM (no_reachable_deadlock): for every schedule and every '
                   'well-formed configuration of the repaired code (any number of clients, futures, script operations and workers, any '
                   'queue capacity >= 1, _minThreads >= 0, _maxThreads >= 2 - the constructor raises it to 3 -, no started function that '
                   'polls isAborting() or starts a future) no reachable state has every thread blocked while a client script is '
-                  'unfinished; it follows from a second inductive invariant (wakeup_invariant_all_schedules): the wake-up bookkeeping of '
+                  'unfinished - EVERY thread: the theorem does NOT cover a client that waits in join() while some other thread keeps '
+                  'moving (the spinning idle worker below is such a thread), and "from every reachable state some continuation '
+                  'finishes all clients" (no reachable trap) is NOT a theorem; what the invariant says about a waiting join is only '
+                  'the clause quoted below (its call is queued, being pushed, or held by a worker that is not blocked); it follows from a second inductive invariant (wakeup_invariant_all_schedules): the wake-up bookkeeping of '
                   'the two FastSignals that the repairs fixes/C10/01-03 establish, the accounting of _threadCount / _pushedJobs / '
                   '_processedJobs against live workers, queued null jobs and clients about to start a worker, and "the call of a started, '
                   'unfinished future is in its owner\'s push loop, queued, or held by a worker that is not blocked"; hence while a client '
@@ -309,12 +324,14 @@ class C10(Check):
                   'start() on a full queue that only workers drain - OPEN finding). The model is tied to the code by running the '
                   'same client scripts on the extracted model/spec and on an ASan/UBSan build of the working tree with real threads under '
                   'injected delays, spurious wake-ups and gated replays of model schedules.')
-    level_note = ('PROVED (Properties_C10.v, 27 theorems, all closed under the global context): model_invariant_all_schedules, '
+    level_note = ('PROVED (Properties_C10.v, 28 theorems, all closed under the global context): model_invariant_all_schedules, '
                   'each_call_runs_at_most_once, joined_call_ran_exactly_once, run_uses_given_arguments, starts_unique, '
                   'result_is_return_value, result_after_join (OGet of a future that is not joinable = return value of the latest start), '
                   'destructor_waits_for_worker (c_sigfix = true: every EvDestroy is clean = no thread stands at PopRead/PopRelease/KWSet/'
                   'KWRearm/WCall/WStore/WRdAbort/WSwap/WSigSet/WBcast for that future), destructor_waits_refuted_original (c_sigfix = '
-                  'false: a schedule ends with the worker in front of the broadcast and the Future destroyed), aborted_only_if_requested, '
+                  'false: a schedule ends with the worker in front of the broadcast and the Future destroyed), result_slot_outlives_execution '
+                  '(trace = newer ++ EvDestroy c f _ :: older and the latest start of f in older is its n-th with argument a => runs older '
+                  'f n = 1 and EvStore f n (fn a) is in older; for c_sigfix true and false), aborted_only_if_requested, '
                   'ring_ticket_invariant, ring_no_two_consumers, ring_no_two_producers, ring_pop_reads_pushed, ring_no_job_lost, '
                   'join_liveness_partial (forall t clk, step leaves s unchanged <-> all_blocked s; all_blocked is permanent), '
                   'deadlock_is_permanent, join_liveness_refuted_original (OLD handshake, c_fixed = false, 170-move witness), '
@@ -324,7 +341,9 @@ class C10(Check):
                   'capacity >= 1, every future named in a script exists and is used by ONE client thread (two threads operating one Future '
                   'object concurrently is outside the statement), c_nested = false (started functions that start futures are outside the '
                   'safety theorems; they are covered by the correspondence runs - stream nested - and by the refutation above). '
-                  'LIVENESS, part (A), PROVED for all schedules and all configurations with wf_cfg, c_fixed = c_sigfix = true, '
+                  'LIVENESS, part (A), PROVED for all schedules and all configurations with wf_cfg, c_fixed = c_sigfix = true (c_sigfix is '
+                  'not needed by the argument - WBcast is one more non-blocking step of a worker - but the 20 clauses of LInv classify '
+                  'program counters and have no class for WBcast; the hypothesis is the tree as it is, it was not removed), '
                   'terminating_scripts (no start with work = 3, the function that polls isAborting()), 0 <= c_min, 2 <= c_max: '
                   'wakeup_invariant_all_schedules (LInv, FutureLiveDefs.v: 20 clauses, each an arithmetic statement over the number of '
                   'threads whose program counter lies in a class - lock holders = lock word; _threadCount = live workers that have not '
@@ -382,6 +401,18 @@ class C10(Check):
                   'function that starts another future blocks in start() for ever when the queue is full and every worker is inside such a '
                   'function; a repair (workers must not wait in the back-pressure loop: run the job inline, or an unbounded hand-off for '
                   'worker-side starts) changes the design of ThreadPool::run. '
+                  'SPEC (FutureSpec.v, the oracle of the runs; no theorem connects it with the model): after a join the expected state is F when '
+                  'abort() was not requested since the start and `FA` (exactly one of isFinished()/isAborted(), the text does not say '
+                  'which) when it was - also for a function that returned because it saw isAborting(); that the code reports A there is a '
+                  'model-only fact (correspondence, reported as no-failing-input-found when it changes). Admissible scripts: between the '
+                  'start of a call that polls isAborting() and the abort() of that future its owner only aborts, queries and pauses - then '
+                  'the premise "the started functions terminate" holds for every pool size >= 1 and queue capacity >= 1 (a start(), join, '
+                  'conversion or destructor in between can wait for a worker that the polling function occupies; the earlier rule "at '
+                  'most two pending because the pool has three workers" used a fact of the code). Lines of the spec that are DELIBERATE '
+                  'STRENGTHENINGS of the text (a text-harmless edit that changes them is reported with an input): `ab` = isAborting() is '
+                  'true exactly from abort() to the next start(); `st I` for a Future that was never started (also the new object after '
+                  'destroy); `pool pushed n` = one run() per start; `quiet 1` = after the last join the ring is empty and every job '
+                  'counted; `tc_ok` = worker count <= _maxThreads. '
                   'Tie between model/spec and the C++ (validated by correspondence only, not proved): the harness includes the '
                   'working tree\'s src/Future.cpp, installs a ThreadPool(min,max,queue) per case and runs the client scripts as real '
                   'threads; every __sync builtin in Future.cpp (force-included harness/future_points.h) calls a hook before and after, '
@@ -393,16 +424,25 @@ class C10(Check):
                   'pthread_cond_broadcast of libnstd on a condition variable outside the pool\'s two signals and outside every live Future '
                   'is counted (`lifetime late n`; ASan cannot see it because glibc is not instrumented). Started functions: free functions '
                   'of arity 0-5 and member functions of arity 0-4 on Future<int64> and Future<void> (every one of the 22 overloads of start), '
-                  'with argument echo; in addition gen/tables_future.py re-reads Future.hpp and Call.hpp on every run and compares the 22 start '
+                  'with argument echo; member functions also check that they run on the object given to start() (`this`), not on a copy; '
+                  'a third slot family Future<String> (slots 56-63: the result has a destructor and heap storage, so a worker that assigns '
+                  'the result after ~Future<A> destroyed it is an ASan report; free functions of arity 2-4 and member functions of arity '
+                  '2-3 with a const String& parameter (`starts`), parameters of a heap-owning type that converts from and to int64 (by value and by '
+                  'const reference) and int arguments for int64 parameters: P != D in the call records); in addition gen/tables_future.py re-reads Future.hpp and Call.hpp on every run and compares the 22 start '
                   'overloads, the 2 proc templates and the 22 call records token by token with the single template written out per arity '
-                  '(TieBroken names the overload that differs). The observations compared are schedule-independent facts only: execution counter and argument echo per call, '
+                  '(TieBroken names the overload that differs), and compares the token text of src/Future.cpp and Future.hpp with a pin taken '
+                  'when the model was last read against them (coq/Future/source.pin): an edit of push/pop/FastSignal/the worker loop/run/'
+                  'startProc/set/join/~Future is at least a broken tie (no-failing-input-found) even when no sampled interleaving shows it. '
+                  'The observations compared are schedule-independent facts only: execution counter and argument echo per call, '
                   'converted results, join-after-completion stamps, isFinished/isAborted after join, number of run() calls, worker count '
                   '<= max, quiescence after the last join (ring empty, processed == pushed), no broadcast on a destroyed Future, no '
                   'deadlock within a 20 s watchdog (its report `deadlock phase=… queue… enq.state…` is an observation, so a hang is a spec '
-                  'mismatch), ASan/UBSan clean. Real threads explore only the interleavings the scheduler and the injected delays produce; '
+                  'mismatch; a hang is relabelled as the OPEN finding only when the report shows the queue full (tail - head == capacity), '
+                  'EVERY worker of the pool inside the start() call of a started function (counted by the harness) and the dequeued signal '
+                  'clear - any other hang of a case with nested starts is a violation), ASan/UBSan clean. Real threads explore only the interleavings the scheduler and the injected delays produce; '
                   'the interleaving model is not replayed step by step against the code except for the gated schedules: ring tickets, '
                   'FastSignal state and spawn/shrink decisions of the model are never compared with the code\'s. Once two cases of a run '
-                  'have hung the remaining cases run under a 6 s watchdog and after eight hangs they are not run (the run has failed by then).')
+                  'have hung the remaining cases run under a 6 s watchdog and after eight hangs or 150 crashes they are not run (the run has failed by then).')
     technique = ('differential correspondence of the extracted model/spec with an ASan/UBSan build of the real code run by real '
                  'threads with injected yields/sleeps at the __sync points, targeted delays, spurious condition-variable wake-ups, a live-'
                  'object ledger for Futures checked at every pthread_cond_broadcast, and four gated (partial-order) replays of model schedules')
@@ -411,9 +451,10 @@ class C10(Check):
             'several clients, full queue (capacity 1-2, more slow calls than workers), shrink (scaled clock, idle workers retire), lazy pool '
             'creation raced, targeted-delay profiles (worker sleep/wake handshake, completion handshake with join/check/get right after, '
             'queue slot publication), lifetime (Future deleted right after its result was taken, worker delayed before the broadcast), '
-            'variants (all start overloads, Future<int64> and Future<void>), reuse (start-get-start-get on one object, half of the cases '
+            'variants (all start overloads, Future<int64>, Future<void>, Future<String>), reuse (start-get-start-get on one object, also after abort(), half of the cases '
             'with delayed completion or spurious wake-ups), burst (16 futures, 24-48 starts, several workers popping from a full queue), '
-            'nested (started functions start futures, queue never full); corpus = four gated replays (lost wake-up by a late reset + null '
+            'nested (started functions start futures, queue never full), strings (Future<String>: start, get, start, delete at once; '
+            'String and converted arguments; started function delayed); corpus = four gated replays (lost wake-up by a late reset + null '
             'job; FastSignal set/reset race; shrink null job on a queue of capacity 1; late broadcast on a destroyed Future); a case is '
             'non-trivial when it starts >= 3 calls and uses >= 2 client threads or starts >= 5 calls; distinct = distinct op text')
     assumptions = ['the interleavings of the real code are sampled (scheduler + injected delays + spurious wake-ups + four gated schedules), not enumerated',
@@ -429,7 +470,15 @@ class C10(Check):
         if diffs:
             raise TieBroken('%d of the hand-copied templates of Future.hpp / Call.hpp differ from the template FutureModel.v mirrors: %s'
                             % (len(diffs), ' ;; '.join(m for (_, m) in diffs[:4])))
-        return [summary]
+        # text pin: FutureModel.v was written by reading src/Future.cpp and Future.hpp (push, pop, FastSignal, the worker loop,
+        # ThreadPool::run, startProc, set, join, ~Future); nothing but the sampled runs ties these functions to the model, so an
+        # edit of either file (comments and white space apart) is at least a broken tie: the owner re-reads the model
+        pins = dict(l.split() for l in open(os.path.join(VERIF, 'coq', 'Future', 'source.pin')).read().split('\n') if l and not l.startswith('#'))
+        changed = [rel for rel in PIN_FILES if pin_of(rel) != pins.get(rel)]
+        if changed:
+            raise TieBroken('%s differ(s) from the text FutureModel.v was read against (coq/Future/source.pin): the interleaving model '
+                            'must be re-read against the edited functions and the pin renewed' % ', '.join(changed))
+        return [summary, 'text pin of %s unchanged' % ' and '.join(PIN_FILES)]
 
     @property
     def harness_flags(self):
